@@ -128,7 +128,7 @@ EXTERNAL = {'drift': c19_run}
 
 def k2_pred(c):
     return c.verdicts.get('C07') == 'holds' and c.verdicts.get('C07strict') == 'FAILS'
-PREDICATES = {'k2_f64_shortfall': k2_pred}
+PREDICATES = {'k2_f64_shortfall': k2_pred, 'k1_aba': lambda c: c.req.strip() == 'slaba' and c.verdicts.get('C02') == 'FAILS'}
 NOT_APPLICABLE = {}
 
 PROPS.update({
@@ -255,6 +255,8 @@ def sl_entry(oracle, nontrivial, rule_extra, **kw):
 
 PROPS.update({
  'C02': sl_entry('C02', lambda c: 'overlap' in c.tags,
+    gens=lambda seed, th: [['slgen', seed, 40000 if th else 1500]] + ([['slabagen']] if th else []),
+    relevant=lambda c: kind(c) in ('sl', 'slaba'),
     "non-trivial = the writer takes at least one step between the first and last shared access of some snapshot() call (tag overlap)",
     lean_modules=['ClockBound.Properties.C02'],
     technique='Lean 4 invariant proof over all interleavings and all stale-read choices of an operational release/acquire model (writer invariant + reader lemma), parameterised by the observed ordering annotation + schedule-level differential correspondence of the real writer/reader under a deterministic scheduler',
